@@ -152,14 +152,14 @@ def render(c):
             toks = " ".join([hexs(bytes(c["nd"]))] + [hexs(bytes(k)) for k in c["chunks"]])
             out.append(Case("mfs", toks, ("mfs",), c["shape"], True, ("mfs", toks)))
     elif g == "grow":
-        src = bytes(c["in"]); sh = "%s/%d-items" % (c["shape"], c["n"])
+        src = bytes(c["in"]); sh = c["shape"]
         if c["k"] in ("btlist", "btdict", "btnest"):
             out.append(Case("bt", hexs(src), ("bt", len(src)), {"oob": sh, "span": sh, "term": sh}, True, ("bt", src)))
         elif c["k"] == "ini":
             out.append(Case("inigrow", "%s %d" % (hexs(src), c["x"]), ("inigrow", c["need"]), sh, True, ("inigrow", src, c["x"])))
         else:
             for isz in (1, 8, 16):
-                out.append(Case("ritems", "%d %d %d" % (isz, c["x"], c["n"]), ("ritems", c["n"], c["x"]), "block-%d/%d-items" % (c["x"], c["n"]),
+                out.append(Case("ritems", "%d %d %d" % (isz, c["x"], c["n"]), ("ritems", c["n"], c["x"]), sh,
                                 True, ("ritems", isz, c["x"], c["n"])))
     elif g == "read":
         src = bytes(c["in"])
